@@ -202,7 +202,8 @@ def drop_statements(body, prefix, what):
     return out, n
 
 
-GHOST_OK = re.compile(r"^(proof\s*\{|assert\b|assert_by\b|invariant\b|invariant_except_break\b|ensures\b|decreases\b|let\s+ghost\b|broadcast\s+use\b)")
+# `name:` alone is the Verus syntax that names the ghost iterator of a `for x in name: iter` loop (proof-only)
+GHOST_OK = re.compile(r"^(proof\s*\{|assert\b|assert_by\b|invariant\b|invariant_except_break\b|ensures\b|decreases\b|let\s+ghost\b|broadcast\s+use\b|[a-z_]\w*:$)")
 
 
 def insert_ghost(body, ghost_lines, what):
@@ -395,7 +396,7 @@ def _stmt_end(text, start, hi, else_chain=True):
     raise ExtractError("statement at offset %d is not terminated" % start)
 
 
-def splice_stmts(rel, impl_sel, fn_name, opts):
+def splice_stmts(rel, impl_sel, fn_name, opts, ghost_lines=()):
     """Statement-level extraction: a contiguous run of statements of one real function.
 
       //@ splice-stmts <repo file> "<impl selector>" <fn> "from=<anchor text>" ["to=<anchor text>" | "until=<anchor text>"] [inner=1] [subst=..] [dropstmt=..]
@@ -464,6 +465,9 @@ def splice_stmts(rel, impl_sel, fn_name, opts):
             raise ExtractError("substitution source `%s` not found in statements of %s" % (a, what))
         code = code.replace(a, b)
         d.append("%s: substitution `%s` => `%s`" % (what, a, b))
+    if ghost_lines:
+        code, notes = insert_ghost(code, ghost_lines, what)
+        d += notes
     return "// extracted verbatim from %s (%s, statements)\n%s" % (rel, what, code), d
 
 
@@ -505,10 +509,14 @@ def expand_splices(body):
             continue
         if s.startswith("//@ splice-stmts"):
             toks = shlex.split(s[len("//@ splice-stmts"):])
-            code, d = splice_stmts(toks[0], toks[1], toks[2], dict(t.split("=", 1) for t in toks[3:] if "=" in t))
+            ghost = []
+            i += 1
+            while i < len(lines) and lines[i].strip().startswith("//@^"):
+                ghost.append(lines[i].strip()[4:].strip())
+                i += 1
+            code, d = splice_stmts(toks[0], toks[1], toks[2], dict(t.split("=", 1) for t in toks[3:] if "=" in t), ghost)
             out.append(code)
             dropped += d
-            i += 1
             continue
         if s.startswith("//@ include-job"):
             if s.split()[2] in INCLUDED:
